@@ -274,6 +274,9 @@ func init() {
 				ls := orb.LineString{}
 				for i := 0; i < 1+c.rng.Intn(6); i++ { // a line may have a single vertex
 					ls = append(ls, pt(big))
+					if c.rng.Intn(5) == 0 { // ... and may stay where it is for a step (a vertex repeated in a row is a vertex)
+						ls = append(ls, ls[len(ls)-1])
+					}
 				}
 				return ls
 			case 3:
@@ -282,6 +285,9 @@ func init() {
 					ls := orb.LineString{}
 					for j := 0; j < 1+c.rng.Intn(5); j++ {
 						ls = append(ls, pt(big))
+						if c.rng.Intn(6) == 0 {
+							ls = append(ls, ls[len(ls)-1])
+						}
 					}
 					mls = append(mls, ls)
 				}
